@@ -354,6 +354,8 @@ MENU = [
     _m('\\', 'CHAR', None, 'end'),
     _m('"a', 'INVALID', None, 'end'), _m("'a\\'", 'INVALID', None, 'end'),
     _m('/*x', None, None, 'end'), _m('url(a', None, None, 'end'), _m('url("a', None, None, 'end'),
+    # the keyword of an open url( spelled with escapes / in capitals: completed like the plain spelling
+    _m('u\\72l(a', None, 'url(a', 'end'), _m('\\75 rl("a', None, 'url("a', 'end'), _m('UR\\4c(a', None, 'URL(a', 'end'), _m('u\\rl(a', None, 'u\\rl(a', 'end'),
 ]
 
 SAFE_END = set(';{}[],:)')
@@ -394,10 +396,10 @@ def _expected_tokens(seq, seps, fullsheet):
                 return None
             if sp.startswith('/*'):
                 exp.append(('COMMENT', sp + '*/'))
-            elif sp.startswith('url("'):
-                exp.append(('URI', sp + '")'))
+            elif toks[0][1].lower().startswith('url("'):
+                exp.append(('URI', toks[0][1] + '")'))
             else:
-                exp.append(('URI', sp + ')'))
+                exp.append(('URI', toks[0][1] + ')'))
         elif toks[0][0] == 'INVALID' and fullsheet:
             exp.append(('STRING', ref_escape.decode(sp, True) + sp[0]))
         else:
